@@ -648,3 +648,31 @@ Section Deep.
     (forall q, user_path q -> view b s1 q = if decide (q = p) then x else view a s1 q) -> view_step s1 p a b.
   Proof. intros H q Hq Hne. rewrite (H q Hq). destruct (decide (q = p)); [contradiction|reflexivity]. Qed.
 End Deep.
+
+(** ** C10: a removed directory does not come back through a FAILING call below it.  append_file on a path below a
+    directory that the overlay does not show (removed through the overlay: marker present, nothing in the write
+    layer) fails before it copies anything up: both layers, the handle table and hence every view are unchanged *)
+Section DeepFail.
+  Variables (lg : list (nat * fscall)) (ft : option (nat * nat)).
+  Notation S2 a b hs := (mstore2 a b hs lg ft).
+  Notation top := (v0, @nil (list N)).
+  Notation lower := [(v1, @nil (list N))].
+
+  Theorem append_below_removed_dir (s0 s1 : mstate) hs (d : path) (n : name) :
+    d <> [] -> s0 !! (d ++ [n]) = None -> s0 !! d = None -> is_Some (s0 !! whiteout_path top d) ->
+    exists e, run bhandler (ovl_impl top lower (CAppendFile (d ++ [n]))) (S2 s0 s1 hs) = (S2 s0 s1 hs, Err e).
+  Proof.
+    intros Hd Hx Hd0 Hm.
+    cbn [ovl_impl]. unfold write_path. cbn [fst snd app].
+    unfold bind_res at 1. rewrite run_bind, exists0, Hx.
+    rewrite bool_decide_eq_false_2 by (intros [? ?]; discriminate).
+    unfold bind_res at 1. rewrite run_bind.
+    unfold bind_res at 1. rewrite run_bind.
+    unfold ovl_ensure_has_parent. destruct (d ++ [n]) as [|x r] eqn:E; [destruct d; discriminate|]. rewrite <- E.
+    rewrite removelast_snoc. unfold bind_res at 1. rewrite run_bind.
+    rewrite (exists_rule hs lg ft s0 s1 d Hd), Hd0.
+    rewrite (bool_decide_eq_false_2 (is_Some None)) by (intros [? ?]; discriminate).
+    rewrite (bool_decide_eq_true_2 (is_Some (s0 !! whiteout_path top d))) by exact Hm.
+    cbn [orb negb andb run fail]. eexists. reflexivity.
+  Qed.
+End DeepFail.
